@@ -136,41 +136,48 @@ SERVER_BAD: t.Dict[str, t.Callable[[t.Any, int], t.Any]] = {
 PAIR_RESP = ["BindResp-ok", "BindResp-sasl", "Entry", "Done", "ExtResp", "Notice"]
 
 
+ID_BASE = 0  # "start from non-initial states too": ids used are 0 and ID_BASE+1.. (the client has already completed ID_BASE operations)
+
+
+def aid(r: int) -> int:
+    return 0 if r == 0 else ID_BASE + r
+
+
 def events(role: str, kmax: int) -> t.List[Event]:
     ev: t.List[Event] = []
     if role == "client":
         ev += [("call", n, -1) for n in CLIENT_CALLS]
         ev += [("callbad", n, -1) for n in CLIENT_BAD]
         for i in range(0, kmax + 2):
-            ev += [("recv", n, i) for n in RESP_KINDS]
+            ev += [("recv", n, aid(i)) for n in RESP_KINDS]
         for i in (0, 1):
-            ev += [("recv", n, i) for n in REQ_KINDS]
+            ev += [("recv", n, aid(i)) for n in REQ_KINDS]
         for i in (1, 2):
-            ev += [("recv2", n, i) for n in RESP_KINDS]
+            ev += [("recv2", n, aid(i)) for n in RESP_KINDS]
         ev += [("recv2", n, 0) for n in ("Unbind", "Notice")]
-        ev += [("recvpeer", n, 1) for n in RESP_KINDS + ["Unbind"]]
+        ev += [("recvpeer", n, aid(1)) for n in RESP_KINDS + ["Unbind"]]
         for a in PAIR_RESP:
             for b in PAIR_RESP:
-                ev.append(("recvpair", f"{a}+{b}", 1))
+                ev.append(("recvpair", f"{a}+{b}", aid(1)))
         for a in ("Entry", "Done", "ExtResp"):
             for b in ("Entry", "Done", "ExtResp", "BindResp-ok"):
-                ev.append(("recvpair", f"{a}+{b}/next", 1))
+                ev.append(("recvpair", f"{a}+{b}/next", aid(1)))
     else:
         ev.append(("call", "unbind", -1))
         for i in range(0, kmax + 1):
-            ev += [("call", n, i) for n in SERVER_CALLS]
-        ev += [("callbad", n, 1) for n in SERVER_BAD]
+            ev += [("call", n, aid(i)) for n in SERVER_CALLS]
+        ev += [("callbad", n, aid(1)) for n in SERVER_BAD]
         for i in range(0, kmax + 1):
-            ev += [("recv", n, i) for n in REQ_KINDS]
+            ev += [("recv", n, aid(i)) for n in REQ_KINDS]
         for i in (0, 1):
-            ev += [("recv", n, i) for n in RESP_KINDS]
+            ev += [("recv", n, aid(i)) for n in RESP_KINDS]
         for i in (1, 2):
-            ev += [("recv2", n, i) for n in REQ_KINDS]
-        ev += [("recvpeer", n, 1) for n in REQ_KINDS + ["Notice"]]
+            ev += [("recv2", n, aid(i)) for n in REQ_KINDS]
+        ev += [("recvpeer", n, aid(1)) for n in REQ_KINDS + ["Notice"]]
         for a in REQ_KINDS:
             for b in REQ_KINDS:
-                ev.append(("recvpair", f"{a}+{b}", 1))
-                ev.append(("recvpair", f"{a}+{b}/next", 1))
+                ev.append(("recvpair", f"{a}+{b}", aid(1)))
+                ev.append(("recvpair", f"{a}+{b}/next", aid(1)))
     ev.append(("garbage", "0400", -1))
     return ev
 
@@ -238,7 +245,18 @@ class Rec(t.NamedTuple):
 
 
 def new_session(role: str) -> t.Any:
-    return L.LDAPClient() if role == "client" else L.LDAPServer()
+    if role != "client":
+        return L.LDAPServer()
+    c = L.LDAPClient()
+    for n in range(ID_BASE):  # a client that has already issued and completed ID_BASE operations
+        c.extended_request("1.2")
+        c.data_to_send()
+        c.receive(make_msg("ExtResp", n + 1).pack(OPT))
+    return c
+
+
+def g0(role: str) -> "Ghost":
+    return (ID_BASE > 0 and role == "client", (), ID_BASE if role == "client" else 0, 0)
 
 
 def step(role: str, s: t.Any, g: Ghost, ev: Event, kmax: int) -> t.Tuple[t.Any, Ghost, Rec, t.List[t.Tuple[str, str, str]]]:
@@ -505,7 +523,7 @@ def _expand(chunk: t.Tuple[int, int]) -> t.List[t.Any]:
     for idx in range(chunk[0], chunk[1]):
         s, g, hist = frontier[idx]
         for ev in evs:
-            if role == "client" and ev[0] in ("call", "callbad") and ev[1] != "unbind" and g[2] >= kmax:
+            if role == "client" and ev[0] in ("call", "callbad") and ev[1] != "unbind" and g[2] - (ID_BASE if role == "client" else 0) >= kmax:
                 continue
             if ev[0] == "callbad" and g[3] >= MAX_BAD_CALLS:
                 continue
@@ -520,15 +538,17 @@ def _expand(chunk: t.Tuple[int, int]) -> t.List[t.Any]:
 STATE_CAP = 30000  # several times the state count of the pinned tree at the thorough bound: a space that keeps growing is cut here
 
 
-def explore(role: str, kmax: int, known: t.Set[t.Tuple[str, str]], seed: int = 0, parallel: bool = False, prop: t.Optional[str] = None) -> Result:
+def explore(role: str, kmax: int, known: t.Set[t.Tuple[str, str]], seed: int = 0, parallel: bool = False, prop: t.Optional[str] = None, id_base: int = 0) -> Result:
     """``prop``: the property whose check is running.  An edge that violates one of *its* monitors is not expanded
     (its target lies outside the specified behaviour) unless the violation is a listed known finding; violations of
     other properties' monitors do not stop the search (each check must find what it can on its own)."""
+    global ID_BASE
+    ID_BASE = id_base
     res = Result()
     evs = events(role, kmax)
     init = new_session(role)
-    seen: t.Dict[t.Any, int] = {(A.freeze(init), G0): 0}
-    frontier: t.List[t.Any] = [(init, G0, [])]
+    seen: t.Dict[t.Any, int] = {(A.freeze(init), g0(role)): 0}
+    frontier: t.List[t.Any] = [(init, g0(role), [])]
     res.states = 1
     # determinism: the same history replayed twice gives identical observations
     probe = [e for e in evs if e[0] == "call"][:3] + [e for e in evs if e[0] == "recv"][:3] + [e for e in evs if e[0] == "recvpair"][:2]
@@ -590,9 +610,11 @@ def run_history(role: str, hist: t.Sequence[Event], kmax: int) -> t.Tuple[t.Any,
     return s, obs
 
 
-def replay_history(role: str, hist: t.Sequence[t.Sequence[t.Any]], kmax: int, prop: str, key: t.Optional[str]) -> t.Tuple[bool, str]:
+def replay_history(role: str, hist: t.Sequence[t.Sequence[t.Any]], kmax: int, prop: str, key: t.Optional[str], id_base: int = 0) -> t.Tuple[bool, str]:
+    global ID_BASE
+    ID_BASE = id_base
     s = new_session(role)
-    g = G0
+    g = g0(role)
     lines = []
     hit = False
     for raw in hist:
@@ -607,12 +629,12 @@ def replay_history(role: str, hist: t.Sequence[t.Sequence[t.Any]], kmax: int, pr
     return (not hit), "\n".join(lines)
 
 
-def report(ctx: t.Any, prop: str, role: str, kmax: int, res: Result) -> None:
+def report(ctx: t.Any, prop: str, role: str, kmax: int, res: Result, id_base: int = 0) -> None:
     ctx.add("states", res.states)
     ctx.add("transitions", res.transitions)
     ctx.add("traces_validated_against_impl", res.validated)
-    ctx.add(f"{role}_states_K{kmax}", res.states)
-    ctx.add(f"{role}_transitions_K{kmax}", res.transitions)
+    ctx.add(f"{role}_states_K{kmax}_base{id_base}", res.states)
+    ctx.add(f"{role}_transitions_K{kmax}_base{id_base}", res.transitions)
     ctx.add(f"{role}_violating_edges_not_expanded", res.unexpanded)
     if res.capped:
         ctx.exhaustive = False
@@ -621,6 +643,6 @@ def report(ctx: t.Any, prop: str, role: str, kmax: int, res: Result) -> None:
     ctx.distinct |= {(role,) + o for o in res.outcomes}
     for (p, k), e in res.viol.items():
         if p == prop:
-            ctx.violation(k, e["what"], {"role": role, "K": kmax, "history": [list(x) for x in e["history"]]}, e["count"])
+            ctx.violation(k, e["what"], {"role": role, "K": kmax, "id_base": id_base, "history": [list(x) for x in e["history"]]}, e["count"])
     for sp in res.sample_paths[:3]:
         ctx.sample({"role": role, "history": sp})
